@@ -5,9 +5,10 @@ sys.path.insert(0, os.path.dirname(os.path.abspath(__file__)))
 import props
 V = os.path.dirname(os.path.dirname(os.path.abspath(__file__)))
 ids = [json.loads(l)["id"] for l in open(os.path.join(V, "properties.jsonl"))]
+claimed = set(open(os.path.join(V, "lib", "claimed.txt")).read().split())
 checks = []
 for pid in ids:
-    if pid not in props.PROPS:
+    if pid not in props.PROPS or pid not in claimed:
         continue
     s = props.PROPS[pid]
     checks.append({
@@ -22,7 +23,7 @@ for pid in ids:
         "technique": s["technique"],
     })
 na = [{"property_id": p, "reason": props.NOT_APPLICABLE.get(p, "check not built yet in this revision; see DESIGN.md section 3 for the planned exploration")}
-      for p in ids if p not in props.PROPS]
+      for p in ids if p not in props.PROPS or p not in claimed]
 m = {
     "version": 1,
     "setup_cmd": "bin/check --setup",
